@@ -481,6 +481,10 @@ class ExprFormatted(Expr):
 
     value: str | Expr
     """Formatted value."""
+    conversion: str | None = None
+    """Conversion applied to the value (`r`, `s` or `a`), if any."""
+    format_spec: Sequence[str | Expr] | None = None
+    """Parts of the format specification (what follows the colon), if any."""
 
     def iterate(self, *, flat: bool = True) -> Iterator[str | Expr]:
         yield "{"
@@ -488,6 +492,11 @@ class ExprFormatted(Expr):
             # `{{` would be an escaped brace.
             yield " "
         yield from _yield(self.value, flat=flat, outer=_Precedence.OR)
+        if self.conversion:
+            yield f"!{self.conversion}"
+        if self.format_spec is not None:
+            yield ":"
+            yield from _join(self.format_spec, "", flat=flat)
         yield "}"
 
 
@@ -1117,7 +1126,14 @@ def _build_formatted(
     in_formatted_str: bool = False,  # noqa: ARG001
     **kwargs: Any,
 ) -> Expr:
-    return ExprFormatted(_build(node.value, parent, in_formatted_str=True, **kwargs))
+    return ExprFormatted(
+        _build(node.value, parent, in_formatted_str=True, **kwargs),
+        conversion=chr(node.conversion) if node.conversion != -1 else None,
+        # The format specification is itself a joined string: keep its parts, without quotes.
+        format_spec=None
+        if node.format_spec is None
+        else [_build(value, parent, **{**kwargs, "in_joined_str": True}) for value in node.format_spec.values],  # type: ignore[attr-defined]
+    )
 
 
 def _build_generatorexp(node: ast.GeneratorExp, parent: Module | Class, **kwargs: Any) -> Expr:
